@@ -75,7 +75,7 @@
     pub mod harness {
         use super::env::{StrId, VpName};
         use super::spec::*;
-        use super::{derive_seed, get, get_range, mask, sign_extend};
+        use super::{derive_seed, get, get_range, mask, range_bound, sign_extend};
         use crate::value::{Value, ValueU64};
 
         fn any_key() -> StrId { StrId { id: kani::any(), name: None } }
@@ -156,6 +156,47 @@
             let got = derive_seed(base, key);
             let name: &[u8] = if present { &bytes[..len] } else { &[] };   // an unknown id has the empty name
             assert!(got == seed_ref(base, name));
+        }
+
+        // ---------------- call-site glue: bound expressions -> handle-width patterns -------------------------
+        fn any_arg() -> crate::value::ValueU64 {
+            // an evaluated bound expression: any well-formed sized <=64-bit value without x/z
+            let v = crate::value::ValueU64 { payload: kani::any(), mask_xz: 0, width: kani::any(), signed: kani::any() };
+            kani::assume(v.width >= 1 && v.width <= 64);
+            kani::assume(v.width == 64 || v.payload >> v.width == 0);
+            v
+        }
+        /// the integer an argument value denotes by its own width and signedness
+        fn arg_value(v: &crate::value::ValueU64) -> i128 { interp(v.payload, v.width, v.signed) }
+        fn representable(x: i128, w: u32, signed: bool) -> bool {
+            if w == 0 { return x == 0; }
+            if signed { -(1i128 << (w - 1)) <= x && x < (1i128 << (w - 1)) } else { 0 <= x && x < (1i128 << w) }
+        }
+
+        #[vp_proof]
+        pub fn range_bound_keeps_value() {
+            let v = any_arg();
+            let w: u32 = kani::any();
+            let signed: bool = kani::any();
+            kani::assume(w >= 1 && w <= 64);
+            let b = range_bound(&Value::U64(v.clone()), w);
+            if representable(arg_value(&v), w, signed) {
+                assert!(interp(b, w, signed) == arg_value(&v));
+            }
+        }
+
+        #[vp_proof]
+        pub fn get_range_from_argument_values() {
+            let (mn, mx) = (any_arg(), any_arg());
+            let w: u32 = kani::any();
+            let signed: bool = kani::any();
+            kani::assume(w >= 1 && w <= 64);
+            kani::assume(representable(arg_value(&mn), w, signed) && representable(arg_value(&mx), w, signed));
+            let r = get_range(any_key(), range_bound(&Value::U64(mn.clone()), w), range_bound(&Value::U64(mx.clone()), w), w, signed);
+            let got = interp(u(&r).payload, w, signed);
+            let (a, b) = (arg_value(&mn), arg_value(&mx));
+            let (lo, hi) = if a <= b { (a, b) } else { (b, a) };
+            assert!(lo <= got && got <= hi);
         }
 
         // ---------------- vacuity canaries (must FAIL) ----------------------------------------------------
